@@ -386,20 +386,16 @@ def run_harnesses(modname, tier, only=None, total_budget_s=None, procs=None, see
     hs = [h for h in mod.harnesses(tier) if only is None or h.id in only]
     procs = procs or int(os.environ.get("VERIF_PROCS", "16"))
     if total_budget_s is None:
-        total_budget_s = float(os.environ.get("VERIF_BUDGET_S", 150 if tier == "quick" else 1100))
+        default = getattr(mod, "BUDGET", {}).get(tier, 150 if tier == "quick" else 1100)
+        total_budget_s = float(os.environ.get("VERIF_BUDGET_S", default))
     # Shards are processed in the order the harness lists them (smallest bounds first), the
-    # harnesses interleaved round-robin.  Every shard runs until its path tree is exhausted,
+    # harnesses one after the other.  Every shard runs until its path tree is exhausted,
     # its own cap is reached, or the global deadline passes; shards that start after the
     # deadline are not run (reported as not exhausted).
     import crosshair.core_and_libs  # noqa: pre-import so that forked workers start fast
     import dendropy  # noqa
     deadline = time.time() + total_budget_s
-    queues = [[(h, i) for i in range(len(h.shards))] for h in hs]
-    tasks = []
-    while any(queues):
-        for q in queues:
-            if q:
-                tasks.append(q.pop(0))
+    tasks = [(h, i) for h in hs for i in range(len(h.shards))]
     args = []
     for h, i in tasks:
         cap = h.shard_budget or total_budget_s
